@@ -435,6 +435,14 @@ def allocfail_fetch(case, res):
         S.request(o, "add", {"path": "s/m"})
         S.request(o, "add", {"path": "t/x", "value": 1})
         rule = {"startsWith": "s/", "caseInsensitive": True}
+        # other subscribers of the same elements, acknowledged long before the fault: 4 fill an element's initial subscriber table
+        # (the new fetch makes it grow), 8 the grown one (it grows a second time), 16 the next
+        others = []
+        for i in range(prm.get("others", 0)):
+            c = _mk(S, "b%d" % i, "raw" if i % 3 else "uds")
+            c.keep_log = True
+            S.request(c, "fetch", {"id": "g", "path": rule})
+            others.append(c)
         if op == "unfetch":
             S.request(sub, "fetch", {"id": "f", "path": rule})
         S.settle()
@@ -462,6 +470,14 @@ def allocfail_fetch(case, res):
             S.request(o, "change", {"path": "s/a", "value": 2}).expect_override = "any"
             S.request(o, "add", {"path": "s/b", "value": 3}).expect_override = "any"
             S.settle()
+            for c in others:
+                got = sorted((m["params"].get("path"), m["params"].get("event")) for m in c.msglog if isinstance(m, dict) and m.get("method") == "g"
+                             and isinstance(m.get("params"), dict) and m["params"].get("event") != "add" or
+                             (isinstance(m, dict) and m.get("method") == "g" and isinstance(m.get("params"), dict) and m["params"].get("path") == "s/b"))
+                if got != [("s/a", "change"), ("s/b", "add")] and not c.closed:
+                    S.v("fetchstate/subscription-of-another-connection-damaged-by-%s" % op, "%s of %d other subscribers saw %r after the %s (%s) with allocation %r failing x%d"
+                        % (c.name, len(others), got, op, said, nth, count))
+                    break
             later = [m for m in sub.msglog[mark:] if isinstance(m, dict) and m.get("method") == "f"]
             subscribed = {("fetch", "done"): True, ("fetch", "refused"): False, ("unfetch", "done"): False, ("unfetch", "refused"): True}.get((op, said))
             if subscribed is True:
@@ -488,6 +504,8 @@ def allocfail_fetch(case, res):
                     S.v("fetchstate/fetch-id-not-usable-after-%s-%s" % (op, said), "answer %s, events %r (allocation %r failing x%d)" % (_json(a2[:1])[:120], ev2, nth, count))
         S.end(sub, "eof")
         S.end(o, "eof")
+        for c in others:
+            S.end(c, "eof")
         S.settle()
         probe(S, "")
         st = S.close_all()
